@@ -286,7 +286,8 @@ class Syllabifier(object):
 
     def _remove_phone_separators(self, utt):
         # special case when there is no phone separator in the utterance
-        if not re.search(self.separator.phone, utt):
+        if (not self.separator.phone
+                or not re.search(self.separator.phone, utt)):
             return utt, []
 
         # the returned index is a list of lists (for each word, length
